@@ -1,16 +1,23 @@
 ---------------------------------- MODULE Cpu ----------------------------------
 (* The MOS 6502 as far as property C18 quantifies over it: registers, status flags, stack, *)
 (* memory, and `Step' for loads/stores, transfers, increments/decrements, logic, shifts,   *)
-(* binary-mode add/subtract, compares, bit, branches, jmp, jsr/rts, pha/pla and the flag    *)
-(* instructions, in all their addressing modes.  Written from the ISA, not from the         *)
+(* binary-mode add/subtract, compares, bit, branches, jmp (absolute and indirect with the   *)
+(* NMOS page-wrap of the vector), jsr/rts, pha/pla, php/plp/rti and the flag instructions,   *)
+(* in all their addressing modes.  Written from the ISA, not from the         *)
 (* emulator crate the implementation uses.  Decoding goes through the opcode table of       *)
 (* Isa6502 (the same table C01 checks the assembler against).                               *)
 (*                                                                                          *)
 (* A cpu is [a, x, y, sp, pc, f, mem, unspec]                                               *)
-(*   f     = [c, z, i, d, v, n]  booleans (B and bit 5 are not modelled)                    *)
+(*   f     = [c, z, i, d, v, n]  booleans.  B (bit 4) and bit 5 are not flip-flops of the 6502:    *)
+(*           they exist only in the copy of the status register that php/brk/interrupts push    *)
+(*           (php: both 1) and are ignored by plp/rti.  StatusPushed is that copy.              *)
 (*   mem   = function from the addresses touched so far to bytes; everything else reads 0   *)
 (*   unspec= TRUE once an instruction outside the modelled subset was executed: from then   *)
 (*           on the specification says nothing about the machine                            *)
+(* Decimal mode: the property quantifies over binary-mode add/subtract only, so adc/sbc with D  *)
+(* set are `unspec' in Step.  StepM(c, TRUE) is the implementation-shaped reading (tier 2): the  *)
+(* emulator crate is built by mos without its `binary_coded_decimal' feature, D is just a bit     *)
+(* and adc/sbc stay binary (implementation fact DecimalFlagIgnored, not a property statement).    *)
 EXTENDS Integers, Sequences, FiniteSets, TLC
 
 I == INSTANCE Isa6502
@@ -52,7 +59,7 @@ ModeLen(mode) == CASE mode = "imp" -> 1
 Modelled == {"lda","ldx","ldy","sta","stx","sty","tax","tay","txa","tya","tsx","txs",
              "inx","iny","dex","dey","inc","dec","and","ora","eor","adc","sbc","cmp","cpx","cpy","bit",
              "asl","lsr","rol","ror","bcc","bcs","beq","bne","bmi","bpl","bvc","bvs","jmp","jsr","rts",
-             "pha","pla","clc","sec","cli","sei","clv","cld","sed","nop"}
+             "pha","pla","php","plp","rti","clc","sec","cli","sei","clv","cld","sed","nop"}
 
 (* effective address of the operand (imm: the address of the operand byte itself) *)
 EA(c, mode) ==
@@ -67,6 +74,8 @@ EA(c, mode) ==
     [] mode = "absy" -> (w + c.y) % 65536
     [] mode = "indx" -> LET p == (b1 + c.x) % 256 IN Rd(c.mem, p) + 256 * Rd(c.mem, (p + 1) % 256)
     [] mode = "indy" -> ((Rd(c.mem, b1) + 256 * Rd(c.mem, (b1 + 1) % 256)) + c.y) % 65536
+    (* jmp (w): the high byte of the target is fetched from the same page as the low byte (NMOS) *)
+    [] mode = "ind"  -> Rd(c.mem, w) + 256 * Rd(c.mem, (256 * (w \div 256)) + ((w + 1) % 256))
     [] OTHER -> 0
 
 Push(c, v) == [c EXCEPT !.mem = Wr(@, 256 + c.sp, v), !.sp = (c.sp + 255) % 256]
@@ -90,10 +99,17 @@ Shift(mn, v, cin) ==
     [] mn = "rol" -> [v |-> ((2 * v) % 256) + (IF cin THEN 1 ELSE 0), c |-> Bit7(v)]
     [] mn = "ror" -> [v |-> (v \div 2) + (IF cin THEN 128 ELSE 0), c |-> v % 2 = 1]
 
-(* one instruction.  The caller decides what a BRK (opcode 0) means; here it is outside the subset. *)
-Step(c) ==
+(* the status register as php pushes it: bits 4 and 5 set; and a pulled byte read back into the flags *)
+StatusPushed(f) == PByte(f) + 48
+FlagsOf(b) == [c |-> b % 2 = 1, z |-> (b \div 2) % 2 = 1, i |-> (b \div 4) % 2 = 1, d |-> (b \div 8) % 2 = 1,
+               v |-> (b \div 64) % 2 = 1, n |-> (b \div 128) % 2 = 1]
+
+(* one instruction.  The caller decides what a BRK (opcode 0) means; here it is outside the subset.   *)
+(* mirror = TRUE: implementation-shaped reading of decimal mode (see the header).                     *)
+StepM(c, mirror) ==
   LET d == Dec[Rd(c.mem, c.pc)] IN
-  IF c.unspec \/ ~d.ok \/ d.mn \notin Modelled \/ d.mode = "ind" THEN [c EXCEPT !.unspec = TRUE]
+  IF c.unspec \/ ~d.ok \/ d.mn \notin Modelled THEN [c EXCEPT !.unspec = TRUE]
+  ELSE IF d.mode = "ind" /\ Rd16(c.mem, (c.pc + 1) % 65536) = 65535 THEN [c EXCEPT !.unspec = TRUE]   \* vector at $FFFF: left open
   ELSE
   LET mn == d.mn
       mode == d.mode
@@ -121,8 +137,8 @@ Step(c) ==
     [] mn = "and" -> LET v == And8(c.a, m) IN [nx EXCEPT !.a = v, !.f = ZN(c.f, v)]
     [] mn = "ora" -> LET v == Or8(c.a, m) IN [nx EXCEPT !.a = v, !.f = ZN(c.f, v)]
     [] mn = "eor" -> LET v == Xor8(c.a, m) IN [nx EXCEPT !.a = v, !.f = ZN(c.f, v)]
-    [] mn = "adc" -> IF c.f.d THEN [c EXCEPT !.unspec = TRUE] ELSE Adc(nx, m)
-    [] mn = "sbc" -> IF c.f.d THEN [c EXCEPT !.unspec = TRUE] ELSE Adc(nx, 255 - m)
+    [] mn = "adc" -> IF c.f.d /\ ~mirror THEN [c EXCEPT !.unspec = TRUE] ELSE Adc(nx, m)
+    [] mn = "sbc" -> IF c.f.d /\ ~mirror THEN [c EXCEPT !.unspec = TRUE] ELSE Adc(nx, 255 - m)
     [] mn = "cmp" -> Cmp(nx, c.a, m)
     [] mn = "cpx" -> Cmp(nx, c.x, m)
     [] mn = "cpy" -> Cmp(nx, c.y, m)
@@ -139,6 +155,10 @@ Step(c) ==
                                 !.pc = (Rd(c.mem, PullAddr(c, 1)) + 256 * Rd(c.mem, PullAddr(c, 2)) + 1) % 65536]
     [] mn = "pha" -> [Push(c, c.a) EXCEPT !.pc = nx.pc]
     [] mn = "pla" -> LET v == Rd(c.mem, PullAddr(c, 1)) IN [nx EXCEPT !.sp = (c.sp + 1) % 256, !.a = v, !.f = ZN(c.f, v)]
+    [] mn = "php" -> [Push(c, StatusPushed(c.f)) EXCEPT !.pc = nx.pc]
+    [] mn = "plp" -> [nx EXCEPT !.sp = (c.sp + 1) % 256, !.f = FlagsOf(Rd(c.mem, PullAddr(c, 1)))]
+    [] mn = "rti" -> [nx EXCEPT !.sp = (c.sp + 3) % 256, !.f = FlagsOf(Rd(c.mem, PullAddr(c, 1))),
+                                !.pc = Rd(c.mem, PullAddr(c, 2)) + 256 * Rd(c.mem, PullAddr(c, 3))]
     [] mn = "clc" -> [nx EXCEPT !.f.c = FALSE]
     [] mn = "sec" -> [nx EXCEPT !.f.c = TRUE]
     [] mn = "cli" -> [nx EXCEPT !.f.i = FALSE]
@@ -147,6 +167,8 @@ Step(c) ==
     [] mn = "cld" -> [nx EXCEPT !.f.d = FALSE]
     [] mn = "sed" -> [nx EXCEPT !.f.d = TRUE]
     [] mn = "nop" -> nx
+
+Step(c) == StepM(c, FALSE)
 
 (* the registers an observer of the machine sees *)
 Regs(c) == [pc |-> c.pc, a |-> c.a, x |-> c.x, y |-> c.y, sp |-> c.sp, p |-> PByte(c.f)]
